@@ -531,7 +531,7 @@ void h_mm_sparse(void)
 '''
 
 
-def _mk(name, desc, extra_defs, variants, thorough, bound, timeout=300):
+def _mk(name, desc, extra_defs, variants, thorough, bound, timeout=600):
     u = Unit(
         name=name, props=['C19', 'C10'],
         functions=['io::mm_reader::operator()<Idx,Val>(ptr, col, val, row_beg, row_end) [sparse coordinate reader]',
@@ -708,7 +708,7 @@ void h_mm_dense(void)
 '''
 
 
-def _mk_dense(name, desc, extra_defs, variants, thorough, bound, timeout=300):
+def _mk_dense(name, desc, extra_defs, variants, thorough, bound, timeout=600):
     u = Unit(
         name=name, props=['C19', 'C10'],
         functions=['io::mm_reader::operator()<Val>(val, row_beg, row_end) [dense array reader]',
